@@ -1058,7 +1058,91 @@ func genPar(r *Rand) string {
 	return fmt.Sprintf("par %d %s", np, strings.Join(all, " "))
 }
 
+// genChain: chains of 3..4 promises; the join edges k -> k-1 are requested in a random order (child first,
+// parent first, mixed), pipelined clients are requested on the deepest and on other promises before and
+// between the joins, the leaf is resolved, then ReleaseClients is called on the promises in a random order
+// with a call through every client after each of them (the table is reference counted: one reference per
+// promise of the chain; the clients must survive until the last ReleaseClients).
+func genChain(r *Rand) string {
+	np := 3 + r.Intn(2)
+	set := pathSets[[]int{0, 1, 3}[r.Intn(3)]]
+	var steps []string
+	var slots []int
+	add := func(s string) { steps = append(steps, s) }
+	client := func(k int) {
+		sl := 10 + len(steps)
+		slots = append(slots, sl)
+		add(fmt.Sprintf("C@%d:%s:%d", k, set[r.Intn(2)%len(set)], sl))
+	}
+	client(np - 1)
+	if r.Bool() {
+		client(r.Intn(np))
+	}
+	// the join edges in a random order
+	edges := make([]int, 0, np-1)
+	for k := 1; k < np; k++ {
+		edges = append(edges, k)
+	}
+	switch r.Intn(3) {
+	case 0: // child first
+		for i, j := 0, len(edges)-1; i < j; i, j = i+1, j-1 {
+			edges[i], edges[j] = edges[j], edges[i]
+		}
+	case 1: // parent first
+	default:
+		for i := len(edges) - 1; i > 0; i-- {
+			j := r.Intn(i + 1)
+			edges[i], edges[j] = edges[j], edges[i]
+		}
+	}
+	for _, k := range edges {
+		add(fmt.Sprintf("J@%d:%d", k, k-1))
+		if r.Intn(3) == 0 {
+			client(r.Intn(np))
+		}
+		if r.Intn(4) == 0 {
+			add(fmt.Sprintf("K:%d:0", slots[r.Intn(len(slots))]))
+		}
+	}
+	var cs []string
+	for i, p := range set {
+		cs = append(cs, fmt.Sprintf("%s=%d", p, i+1))
+	}
+	if r.Intn(5) == 0 {
+		add("R@0:-")
+	} else {
+		add("F@0:" + strings.Join(cs, ",") + ":-")
+	}
+	order := make([]int, np)
+	for k := range order {
+		order[k] = k
+	}
+	for i := np - 1; i > 0; i-- {
+		j := r.Intn(i + 1)
+		order[i], order[j] = order[j], order[i]
+	}
+	for _, sl := range slots {
+		add(fmt.Sprintf("K:%d:0", sl))
+	}
+	for _, k := range order {
+		add(fmt.Sprintf("L@%d", k))
+		for _, sl := range slots {
+			add(fmt.Sprintf("K:%d:0", sl))
+		}
+		if r.Intn(3) == 0 {
+			add(fmt.Sprintf("L@%d", k)) // a second ReleaseClients on the same promise does nothing
+		}
+	}
+	for k := 0; k < np; k++ {
+		add(fmt.Sprintf("W@%d", k))
+	}
+	return fmt.Sprintf("join %d %s", np, strings.Join(steps, " "))
+}
+
 func genHistory(r *Rand, maxOps int) string {
+	if r.Intn(10) == 0 {
+		return genChain(r)
+	}
 	if r.Intn(8) == 0 {
 		return genPar(r)
 	}
